@@ -69,25 +69,35 @@ def shiftRows (s : Array Byte) : Array Byte :=
 def invShiftRows (s : Array Byte) : Array Byte :=
   Array.ofFn (n := 16) fun i => s.getD (i.val % 4 + 4 * ((i.val / 4 + 4 - i.val % 4) % 4)) 0
 
+/-- multiplication by a constant as a 256-entry table (evaluated once at start-up); `mulBy t a = gmul c a` for `t = mulTable c` -/
+def mulTable (c : Byte) : Array Byte := Array.ofFn (n := 256) fun i => gmul c (UInt8.ofNat i.val)
+def mul2 : Array Byte := mulTable 0x02
+def mul3 : Array Byte := mulTable 0x03
+def mul9 : Array Byte := mulTable 0x09
+def mulB : Array Byte := mulTable 0x0b
+def mulD : Array Byte := mulTable 0x0d
+def mulE : Array Byte := mulTable 0x0e
+def mulBy (t : Array Byte) (a : Byte) : Byte := t.getD a.toNat 0
+
 def mixColumns (s : Array Byte) : Array Byte :=
   Array.ofFn (n := 16) fun i =>
     let c := i.val / 4
     let a := fun k => s.getD (4 * c + k) 0
     match i.val % 4 with
-    | 0 => gmul 2 (a 0) ^^^ gmul 3 (a 1) ^^^ a 2 ^^^ a 3
-    | 1 => a 0 ^^^ gmul 2 (a 1) ^^^ gmul 3 (a 2) ^^^ a 3
-    | 2 => a 0 ^^^ a 1 ^^^ gmul 2 (a 2) ^^^ gmul 3 (a 3)
-    | _ => gmul 3 (a 0) ^^^ a 1 ^^^ a 2 ^^^ gmul 2 (a 3)
+    | 0 => mulBy mul2 (a 0) ^^^ mulBy mul3 (a 1) ^^^ a 2 ^^^ a 3
+    | 1 => a 0 ^^^ mulBy mul2 (a 1) ^^^ mulBy mul3 (a 2) ^^^ a 3
+    | 2 => a 0 ^^^ a 1 ^^^ mulBy mul2 (a 2) ^^^ mulBy mul3 (a 3)
+    | _ => mulBy mul3 (a 0) ^^^ a 1 ^^^ a 2 ^^^ mulBy mul2 (a 3)
 
 def invMixColumns (s : Array Byte) : Array Byte :=
   Array.ofFn (n := 16) fun i =>
     let c := i.val / 4
     let a := fun k => s.getD (4 * c + k) 0
     match i.val % 4 with
-    | 0 => gmul 0x0e (a 0) ^^^ gmul 0x0b (a 1) ^^^ gmul 0x0d (a 2) ^^^ gmul 0x09 (a 3)
-    | 1 => gmul 0x09 (a 0) ^^^ gmul 0x0e (a 1) ^^^ gmul 0x0b (a 2) ^^^ gmul 0x0d (a 3)
-    | 2 => gmul 0x0d (a 0) ^^^ gmul 0x09 (a 1) ^^^ gmul 0x0e (a 2) ^^^ gmul 0x0b (a 3)
-    | _ => gmul 0x0b (a 0) ^^^ gmul 0x0d (a 1) ^^^ gmul 0x09 (a 2) ^^^ gmul 0x0e (a 3)
+    | 0 => mulBy mulE (a 0) ^^^ mulBy mulB (a 1) ^^^ mulBy mulD (a 2) ^^^ mulBy mul9 (a 3)
+    | 1 => mulBy mul9 (a 0) ^^^ mulBy mulE (a 1) ^^^ mulBy mulB (a 2) ^^^ mulBy mulD (a 3)
+    | 2 => mulBy mulD (a 0) ^^^ mulBy mul9 (a 1) ^^^ mulBy mulE (a 2) ^^^ mulBy mulB (a 3)
+    | _ => mulBy mulB (a 0) ^^^ mulBy mulD (a 1) ^^^ mulBy mul9 (a 2) ^^^ mulBy mulE (a 3)
 
 /-- `w` is the expanded key as bytes; round key `r` is bytes `16r .. 16r+15` -/
 def addRoundKey (s w : Array Byte) (round : Nat) : Array Byte :=
